@@ -101,9 +101,11 @@ def coq_eval(cases):
          "Definition lay (l : layout) := (map (fun x => (fst x, (fst (snd x), fty_size (snd (snd x))))) (fst (c_offsets l 0)), c_size l).",
          "Definition alay (l : layout) := (map (fun x => (fst x, (fst (snd x), fty_size (snd (snd x))))) (abi_offsets l 0), layout_size l)."]
     order = sorted(byfn)
+    CH = 2000            # a 65k-element list literal overflows coqc's stack: evaluate in chunks
     for fn in order:
-        v.append('Goal True. idtac "===FN %s". Abort.' % fn)
-        v.append('Eval vm_compute in (let r := resolve abi_consts (arms_of "%s") in map (sem_r r) [%s]).' % (fn, "; ".join("(%d)" % x for x in byfn[fn])))
+        for k in range(0, len(byfn[fn]), CH):
+            v.append('Goal True. idtac "===FN %s %d". Abort.' % (fn, k))
+            v.append('Eval vm_compute in (let r := resolve abi_consts (arms_of "%s") in map (sem_r r) [%s]).' % (fn, "; ".join("(%d)" % x for x in byfn[fn][k:k + CH])))
     v.append('Goal True. idtac "===GEN". Abort.')
     v.append("Eval vm_compute in (map (fun p => (fst p, lay (snd p))) c_structs).")
     v.append('Goal True. idtac "===REF". Abort.')
@@ -115,13 +117,13 @@ def coq_eval(cases):
         raise vlib.Broken("evaluation of the generated Coq tables (cases.v)", out[-2000:])
     res = {"tostr": {}, "gen": {}, "ref": {}}
     out = out.replace("%nat", "").replace("%Z", "")
-    parts = re.split(r"===(FN \S+|GEN|REF)\n", out)
+    parts = re.split(r"===(FN \S+ \d+|GEN|REF)\n", out)
     for k in range(1, len(parts), 2):
         tag, body = parts[k], parts[k + 1]
         if tag.startswith("FN "):
-            fn = tag[3:]
+            fn, k0 = tag[3:].split(" ")
             items = re.findall(r'Some "([^"]*)"|(None)', body)
-            vals = byfn[fn]
+            vals = byfn[fn][int(k0):int(k0) + CH]
             if len(items) != len(vals):
                 raise vlib.Broken("cases.v output for %s: %d results for %d inputs" % (fn, len(items), len(vals)))
             for x, it in zip(vals, items):
